@@ -263,9 +263,6 @@ def run_case(c, d):
         det = {'history': history[-14:], 'state': {k: v for k, v in st.items()}, 'sides_replayed': list(sides_log)}
         c.compare('read:psd-equals-fresh-object', got, ref, 1e-12, feats, scale=float(np.max(np.abs(ref))) if ref.size else 1.0,
                   detail=det)
-        if fr_first is not None:
-            c.require('read:frequencies()-asked-before-psd-has-the-length-of-psd', len(fr_first) == len(got),
-                      dict(det, freqs=len(fr_first), psd=len(got)), feats)
         if conv is not None:
             c.compare('read:get_converted_psd-equals-fresh-object', conv, ref_conv, 1e-12, dict(feats, target=target),
                       scale=float(np.max(np.abs(ref_conv))) if ref_conv.size else 1.0, detail=det)
@@ -289,6 +286,14 @@ def run_case(c, d):
                 return which == 'frozen-conversion-branches' and len(got) == st['NFFT'] - 1 and len(fr) == st['NFFT']
         c.require('read:one-value-per-reported-frequency', len(fr) == len(got), dict(det, psd=len(got), freqs=len(fr)), f2,
                   charact=charact)
+        if fr_first is not None:
+            # (same F08 layout caveat: for real data and odd NFFT the private two-sided layout has NFFT-1 values)
+            ch1 = None
+            if charact is not None:
+                def ch1(which):
+                    return which == 'frozen-conversion-branches' and len(got) == st['NFFT'] - 1 and len(fr_first) == st['NFFT']
+            c.require('read:frequencies()-asked-before-psd-has-the-length-of-psd', len(fr_first) == len(got),
+                      dict(det, freqs=len(fr_first), psd=len(got)), f2, charact=ch1)
         return True
 
     for op in d['ops']:
